@@ -400,7 +400,7 @@ impl Prop for C11 {
             let m = ctx.share(4_000);
             ctx.run_generated("cuts-long", m, case_strategy(true), check);
         }
-        let l = ctx.share(ctx.tier.n(600, 6_000));
+        let l = ctx.share(ctx.tier.n(1_500, 10_000));
         ctx.run_generated("cuts-kilobytes", l, long_case_strategy(), check);
         if ctx.worker == 0 {
             ctx.st.exhaustive_parts.push("TCP segmentations: all 1-cut and all 2-cut compositions of every generated stream".into());
